@@ -57,18 +57,20 @@ structure St where
   details : Bool                -- `_preprocessing_details` is non-empty
   attrPre : Pipe                -- self.preprocessing, self.preprocessing_options
   rating : Option RatingKey     -- the rating cache
+  scan : Option Prov            -- the E(δ) scan arrays (`optimal_fit_E_array` / `…_delta_array`), with provenance
   nfits : Nat                   -- number of fits performed (optimiser runs)
   nrates : Nat                  -- number of ratings computed (not served from the cache)
 
 def init : St :=
   { fp := fun _ => Option.none, res := Option.none, fitCols := Option.none, cols := Option.none,
-    details := false, attrPre := { steps := [], opts := "{}" }, rating := Option.none, nfits := 0, nrates := 0 }
+    details := false, attrPre := { steps := [], opts := "{}" }, rating := Option.none, scan := Option.none,
+    nfits := 0, nrates := 0 }
 
 def isDefaultKey (k : String) : Bool := Nanite.Gen.FitKeys.fpDefaultKeys.contains k
 def isResultKey (k : String) : Bool := Nanite.Gen.FitKeys.fpResultKeys.contains k
 
 /-- `FitProperties.reset` (+ the `on_reset` hook of Indentation: the fit columns go as well) -/
-def reset (s : St) : St := { s with res := Option.none, fitCols := Option.none }
+def reset (s : St) : St := { s with res := Option.none, fitCols := Option.none, scan := Option.none }
 
 def truthy : Option V → Bool
   | some (.tok "1.0") => true       -- True / 1 / 1.0 all carry the token of float(x)
@@ -286,7 +288,10 @@ def fitModel (defaults : Settings) (s : St) (kw : List (String × V)) (optErr : 
         | .error e => (s4, .error e)
         | .ok _ =>
             let prov : Prov := { cols := s4.cols, settings := fpFull }
-            ({ s4 with fp := fpFull, res := some prov, fitCols := some prov, nfits := s4.nfits + 1 }, .ok ())
+            -- (`idnt.fit_properties = fitter.fp` is a dict.update: a cached scan stays unless the plateau
+            --  search of this fit stored a new one)
+            ({ s4 with fp := fpFull, res := some prov, fitCols := some prov, nfits := s4.nfits + 1,
+                       scan := if truthy (fpFull "optimal_fit_edelta") then some prov else s4.scan }, .ok ())
 
 def sameProv : Option Prov → Option Prov → Bool
   | Option.none, Option.none => true
@@ -315,11 +320,42 @@ def rate (s : St) (regressor ts names lda : String) : St × Bool :=
   else if cacheHit s regressor ts names lda then (s, true)
   else (withRating s regressor ts names lda, false)
 
+/-- sanity checks that `IndentationFitter(idnt)` and `compute_emodulus_vs_mindelta` perform when the scan is
+requested directly: as `ctorCheck`, but missing initial parameters are guessed by the constructor (always
+complete), and every retract segment is refused whether or not the plateau search is on -/
+def emodCheck (s : St) (fp : Settings) : Except Err Unit :=
+  if !(match s.cols with | some p => p.steps.contains 0 | Option.none => false) then .error .keyErr
+  else if fp "range_type" ≠ some (.tok "s:absolute") && fp "range_type" ≠ some (.tok "s:relative cp") then
+    .error .fitKeyErr
+  else if !(match fp "model_key" with | some (.tok m) => knownModels.contains m | _ => false) then
+    .error .fitKeyErr
+  else if truthy (fp "optimal_fit_edelta") && fp "range_type" ≠ some (.tok "s:absolute") then .error .fitKeyErr
+  else
+    let complete := match fp "params_initial", fp "model_key" with
+      | some (.params m _), some (.tok mk) =>
+          (paramNames ((mk.drop 2).toString)).all (fun n => (paramNames m).contains n)
+      | _, _ => true
+    if !complete then .error .fitKeyErr
+    else if fp "segment" ≠ some (.tok "0.0") then .error .fitDataErr
+    else .ok ()
+
+/-- `Indentation.compute_emodulus_mindelta()`: the cached scan is returned while it exists (it is a fit
+result: every changed setting discards it); otherwise it is computed for the data columns and the settings
+as they are now, and cached.  Nothing else changes. -/
+def emod (defaults : Settings) (s : St) : St × Except Err Unit :=
+  if s.scan.isSome then (s, .ok ())
+  else
+    let fpFull := fitterFp (withDefaults s.fp defaults) defaults
+    match emodCheck s fpFull with
+    | .error e => (s, .error e)
+    | .ok _ => ({ s with scan := some { cols := s.cols, settings := fpFull } }, .ok ())
+
 inductive Op where
   | pp (steps : List Nat) (opts : String) (optErr : List (Option Err)) (retDetails : Bool)
   | fit (kw : List (String × V)) (optErr : List (Option Err)) (guess : String → List String)
   | set (key : String) (value : V)                 -- idnt.fit_properties[key] = value
   | rate (regressor ts names lda : String)
+  | emod                                           -- idnt.compute_emodulus_mindelta()
 
 def step (defaults : Settings) (s : St) : Op → St × Except Err Unit
   | .pp steps opts oe rd => applyPre s steps opts oe rd
@@ -328,6 +364,7 @@ def step (defaults : Settings) (s : St) : Op → St × Except Err Unit
       | .ok s' => (s', .ok ())
       | .error e => (s, .error e)
   | .rate r t n l => ((rate s r t n l).1, .ok ())
+  | .emod => emod defaults s
 
 def run (defaults : Settings) (s : St) (ops : List Op) : St := ops.foldl (fun st op => (step defaults st op).1) s
 
